@@ -35,9 +35,24 @@ func (s *gRPCServer) Close() error {
 	return nil
 }
 
+// Shutdown stops accepting new connections and calls and waits for the
+// pending calls to finish. When ctx ends first the remaining connections
+// are closed, so that a call or stream which never ends cannot keep the
+// shutdown from completing within the configured wait.
 func (s *gRPCServer) Shutdown(ctx context.Context) error {
-	s.server.GracefulStop()
-	return nil
+	done := make(chan struct{})
+	go func() {
+		s.server.GracefulStop()
+		close(done)
+	}()
+	select {
+	case <-done:
+		return nil
+	case <-ctx.Done():
+		s.server.Stop()
+		<-done
+		return ctx.Err()
+	}
 }
 
 func (s *gRPCServer) Serve(lis net.Listener) error {
